@@ -1,7 +1,7 @@
 (* Wf.v -- the definitions C04's totality theorem speaks about: subcommands, adjacent or not; adjacent
    GROUPS whose members keep their scope (flags, arguments, positionals under any of optional / many / some /
    collect / count / last / fallback / guard / parse / map / hide / usage / group_help / boxed, pure, fail,
-   combined by construct! and alternatives: everything but subcommands and nested groups) and which start with an item (Meta::first_item: without one the
+   combined by construct! and alternatives, and nested groups: everything but subcommands) and which start with an item (Meta::first_item: without one the
    group panics -- known finding C04-adjacent-without-first-item);
    every named item has a short name, a long name or a variable (the builder API cannot produce one
    without), every option level passes the positional invariant check (check_invariants). *)
@@ -21,7 +21,8 @@ Fixpoint memb (p : parser) {struct p} : bool :=
   | PCon fs => membl fs
   | PPure _ | PPureWith _ | PFail _ => true
   | POr a b => memb a && memb b
-  | PCmd _ _ _ _ _ _ | PAdj _ => false
+  | PAdj fs => membl fs          (* a nested group: it hands its caller's scope back (AdjTotal.adjacent_inscope) *)
+  | PCmd _ _ _ _ _ _ => false
   end
 with membl (ps : plist) {struct ps} : bool :=
   match ps with PNil => true | PCons q t => memb q && membl t end.
